@@ -322,7 +322,7 @@ impl Exec {
     pub fn create(fam: &'static str, obs: Observe, dim: usize) -> Result<Self, Fail> {
         let dir = Scratch::new(fam);
         let path = dir.path("m.mv2");
-        let mem = Memvid::create(&path)
+        let mem = create_retrying(&path)
             .map_err(|e| Fail::new(format!("{fam}:create-failed"), format!("Memvid::create: {e}")))?;
         let last_wal_size = wal_size_of(&path);
         Ok(Exec {
@@ -772,7 +772,7 @@ impl Exec {
 
     fn reopen(&mut self, op_index: usize) -> Result<(), Fail> {
         self.last_wal_size = wal_size_of(&self.path);
-        match Memvid::open(&self.path) {
+        match open_retrying(&self.path) {
             Ok(m) => {
                 self.mem = Some(m);
                 self.committed_once = true;
@@ -1292,4 +1292,40 @@ pub fn read_range(path: &std::path::Path, off: u64, len: u64) -> std::io::Result
     let mut v = vec![0u8; len as usize];
     f.read_exact(&mut v)?;
     Ok(v)
+}
+
+/// Tantivy's work-directory lock (`.tantivy-writer.lock` in a fresh temp dir) is occasionally
+/// reported busy when other threads of this process are spawning child processes at the same
+/// moment (observed ~3 % under C22's load; it is the harness' concurrency, not a property of the
+/// memory file). Such an error says nothing about the file, so the call is simply repeated.
+fn is_transient(e: &MemvidError) -> bool {
+    e.to_string().contains("Failed to acquire Lockfile")
+}
+
+pub fn open_retrying(path: &std::path::Path) -> Result<Memvid, MemvidError> {
+    let mut last = None;
+    for attempt in 0..4 {
+        match Memvid::open(path) {
+            Ok(m) => return Ok(m),
+            Err(e) if is_transient(&e) && attempt < 3 => {
+                std::thread::sleep(std::time::Duration::from_millis(30));
+                last = Some(e);
+            }
+            Err(e) => return Err(e),
+        }
+    }
+    Err(last.unwrap())
+}
+
+pub fn create_retrying(path: &std::path::Path) -> Result<Memvid, MemvidError> {
+    for _ in 0..3 {
+        match Memvid::create(path) {
+            Err(e) if is_transient(&e) => {
+                let _ = std::fs::remove_file(path);
+                std::thread::sleep(std::time::Duration::from_millis(30));
+            }
+            other => return other,
+        }
+    }
+    Memvid::create(path)
 }
